@@ -785,6 +785,14 @@ class BaseDiscretizer(BaseEstimator, TransformerMixin):
                 # grouping discarded_value with kept_value
                 order.group(discarded_value, kept_value)
 
+                # a group of quantiles is led by its largest quantile (upper bound of the interval)
+                if (
+                    feature in self.quantitative_features
+                    and self.str_nan not in (discarded_value, kept_value)
+                    and discarded_value > kept_value
+                ):
+                    order.replace_group_leader(kept_value, discarded_value)
+
             # replacing group leader if requested
             elif mode == "replace":
                 # grouping kept_value with discarded_value
